@@ -15,6 +15,8 @@ git -C /repo worktree add -q --detach "$wt" HEAD || exit 2
 trap 'git -C /repo worktree remove --force "$wt" 2>/dev/null; rm -rf "$wt"' EXIT
 mkdir -p "$wt/seed"; cp -r "$src" "$wt/seed/$id"
 demo="${DEMO_CMD:-}"
+# copy-based demos: keep the stored demo files out of the project's own `go test ./...`
+[ -n "$demo" ] && printf 'module seed\n\ngo 1.23\n' > "$wt/seed/go.mod"
 if [ -z "$demo" ]; then
   f=$(ls "$wt/seed/$id"/*_test.go 2>/dev/null | head -1)
   tag=$(grep -m1 '^//go:build' "$f" 2>/dev/null | awk '{print $2}')
